@@ -467,6 +467,7 @@ Section Calls.
             end
         | _, _ => (RStuck, s)
         end
+    | EQPath _ _ _ => (RStuck, s)
     end.
 
   (** running a method body: a propagating `return` becomes the result *)
